@@ -206,10 +206,10 @@ def rule_r4(ctx: Context, R: Reporter):
 
 def run(ctx: Context, R: Reporter):
     T = Tracer(ctx)
-    rule_r1(ctx, R, T)
-    rule_r2(ctx, R, T)
-    rule_r3(ctx, R)
-    rule_r4(ctx, R)
+    R.guard(rule_r1, ctx, R, T)
+    R.guard(rule_r2, ctx, R, T)
+    R.guard(rule_r3, ctx, R)
+    R.guard(rule_r4, ctx, R)
 
 
 def variants():
